@@ -239,6 +239,11 @@ func (fc *freshCtx) fresh(v ssa.Value, depth int) bool {
 					if !fc.fresh(sv, depth+1) {
 						res = false
 					}
+				case *ssa.UnOp:
+					// the value of a composite literal built in a temporary of its own: x := T{…} via `complit`
+					if tmp, isAl := sv.X.(*ssa.Alloc); !(sv.Op == token.MUL && isAl && tmp != x && fc.fresh(tmp, depth+1)) {
+						res = false
+					}
 				default:
 					res = false
 				}
@@ -374,6 +379,55 @@ func (c *Ctx) racesFor(la *LockAnalysis, memoKey string) *RaceAnalysis {
 		cls := p.fieldName(fv) + suffix
 		ra.Accesses[cls] = append(ra.Accesses[cls], Access{Class: cls, Field: fv, Ins: ins, Fn: ins.Parent(), Write: write, Atomic: atomic, What: what})
 	}
+	// A struct that is held by value inside another object (skiplist.Element embeds an Entry, Data.Entries is a
+	// []Entry) shares no memory with a struct of the same type held elsewhere: its fields are classed with the holder
+	// ("Element.Entry." / "Data.Entries[]."). An access through a plain pointer to the struct (&x.Entry handed on) could
+	// be either; such accesses keep the bare class and are added to every refined class of the field afterwards.
+	refine := func(addr ssa.Value) string {
+		fa, ok := addr.(*ssa.FieldAddr)
+		if !ok {
+			return ""
+		}
+		switch b := fa.X.(type) {
+		case *ssa.FieldAddr:
+			if outer, _ := fieldOfAddr(b); outer != nil && p.fieldOwner(outer) != "" {
+				return p.fieldName(outer) + "."
+			}
+		case *ssa.IndexAddr:
+			if root := p.containerRoot(b.X, 0); root != nil && p.fieldOwner(root) != "" {
+				return p.fieldName(root) + "[]."
+			}
+		}
+		return ""
+	}
+	refinedOf := map[*types.Var]map[string]bool{}
+	addIn := func(prefix string, fv *types.Var, ins ssa.Instruction, write bool, what string) {
+		if prefix == "" {
+			add(fv, "", ins, write, false, what)
+			return
+		}
+		owner := p.fieldOwner(fv)
+		if owner == "" {
+			return
+		}
+		cls := prefix + p.fieldName(fv)
+		if refinedOf[fv] == nil {
+			refinedOf[fv] = map[string]bool{}
+		}
+		refinedOf[fv][cls] = true
+		ra.Accesses[cls] = append(ra.Accesses[cls], Access{Class: cls, Field: fv, Ins: ins, Fn: ins.Parent(), Write: write, What: what})
+	}
+	defer func() {
+		for fv, classes := range refinedOf {
+			bare := ra.Accesses[p.fieldName(fv)]
+			for cls := range classes {
+				for _, a := range bare {
+					a.Class = cls
+					ra.Accesses[cls] = append(ra.Accesses[cls], a)
+				}
+			}
+		}
+	}()
 	for _, f := range p.Funcs {
 		if !la.Reached[f] {
 			continue
@@ -387,7 +441,7 @@ func (c *Ctx) racesFor(la *LockAnalysis, memoKey string) *RaceAnalysis {
 				case *ssa.Store:
 					if fv, _ := fieldOfAddr(x.Addr); fv != nil {
 						if !baseIsFresh(x.Addr) && !isSyncType(fv.Type()) {
-							add(fv, "", ins, true, false, "store to field")
+							addIn(refine(x.Addr), fv, ins, true, "store to field")
 						}
 					} else if ia, ok := x.Addr.(*ssa.IndexAddr); ok {
 						if !baseIsFresh(ia.X) && !rootFresh(ia.X) {
@@ -404,7 +458,7 @@ func (c *Ctx) racesFor(la *LockAnalysis, memoKey string) *RaceAnalysis {
 					}
 					if fv, _ := fieldOfAddr(x.X); fv != nil {
 						if !baseIsFresh(x.X) && !isSyncType(fv.Type()) {
-							add(fv, "", ins, false, false, "load of field")
+							addIn(refine(x.X), fv, ins, false, "load of field")
 						}
 					} else if ia, ok := x.X.(*ssa.IndexAddr); ok {
 						if !baseIsFresh(ia.X) && !rootFresh(ia.X) {
@@ -464,7 +518,9 @@ func (c *Ctx) racesFor(la *LockAnalysis, memoKey string) *RaceAnalysis {
 					if bi, ok := cc.Value.(*ssa.Builtin); ok {
 						switch bi.Name() {
 						case "delete":
-							add(p.containerRoot(cc.Args[0], 0), "→elems", ins, true, false, "delete from map")
+							if !rootFresh(cc.Args[0]) {
+								add(p.containerRoot(cc.Args[0], 0), "→elems", ins, true, false, "delete from map")
+							}
 						}
 						continue
 					}
